@@ -127,8 +127,9 @@ def gen_cases(ctx, tier):
             else:
                 tree[name] = sheetgen.gen_sheet(rng, 0.0)
             files.append(name)
-        c = {"tree": tree, "files": files, "lp": "lp", "must": ["loadpath"] + [f"mark{j}x" for j in range(k) if needs[j]],
-             "mustnot": [], "layout": "multi-lp"}
+        # markers are demanded only for the files BEFORE the first failing one (the tool stops at the first failure)
+        c = {"tree": tree, "files": files, "lp": "lp", "must": [], "mustnot": [], "layout": "multi-lp",
+             "must_by_file": {str(j): [f"mark{j}x", "loadpath"] for j in range(k) if needs[j]}}
         c.update(flags())
         cases.append(c)
     # nested layouts (rsass 3dfdada): a dependency loaded from a file in a sub directory is looked up relative to that
@@ -199,9 +200,14 @@ def coq_term(c, io):
             fs.append(f"(FErr {cbytes(f[0])})")
         else:
             fs.append("FBad")
+    first_fail = next((j for j, (tag, _) in enumerate(io) if tag != "ok"), len(io))
+    must = list(c["must"])
+    for j, ms in sorted(c.get("must_by_file", {}).items()):
+        if int(j) < first_fail:
+            must += [m for m in ms if m not in must]
     rc, so, se = run_cli(c)
     c["_cli"] = [rc, so.decode("utf-8", "replace")[:2000], se.decode("utf-8", "replace")[:2000]]
-    return (f"(mkCase {clist(fs)} {cz(rc)} {cbytes(so)} {cbytes(se)} {clist([cbytes(m) for m in c['must']])} "
+    return (f"(mkCase {clist(fs)} {cz(rc)} {cbytes(so)} {cbytes(se)} {clist([cbytes(m) for m in must])} "
             f"{clist([cbytes(m) for m in c['mustnot']])})")
 
 
@@ -223,7 +229,12 @@ def judge(c, io, r):
 def shrink(c):
     if len(c["files"]) > 1:
         for i in range(len(c["files"])):
-            yield dict(c, files=c["files"][:i] + c["files"][i + 1:])
+            d = dict(c, files=c["files"][:i] + c["files"][i + 1:])
+            if "must_by_file" in d:         # per-file markers are keyed by position: re-key them
+                names = c["files"]
+                d["must_by_file"] = {str(d["files"].index(names[int(j)])): ms for j, ms in c["must_by_file"].items()
+                                     if names[int(j)] in d["files"]}
+            yield d
     if c["style"] or c["prec"] is not None:
         yield dict(c, style=None, prec=None)
 
